@@ -659,6 +659,9 @@ bytes zkb_sign(const Params& p, const bytes& sk, const bytes& Cc, const bytes& p
       tr->secrets.push_back({"zkb.hidden_seed t=" + std::to_string(t) + " party=" + std::to_string(hid), r.seed[hid]});
       if (hid == 2)
         tr->secrets.push_back({"zkb.hidden_third_input_share t=" + std::to_string(t), r.ish[2]});
+      // the unopened party's view (its AND-gate outputs): 16 bytes from the middle are pseudorandom and enough to recognise it
+      if (r.view[hid].size() >= 32)
+        tr->secrets.push_back({"zkb.hidden_view t=" + std::to_string(t) + " party=" + std::to_string(hid), bytes(r.view[hid].begin() + 8, r.view[hid].begin() + 32)});
     }
   }
   if (tr) {
